@@ -34,6 +34,10 @@ FIELD = {"_options": 0, "converged": 1, "OPF_converged": 2, "_pd2ppc_lookups": 3
          "_isolated_buses": 8, "_isolated_buses_dc": 8, "_aux_elements": 9, "_ppc_opf": 10, "res_cost": 11,
          "_fused_bb_switches": 12, "_impedance_bb_switches": 12, "_gen_order": 12, "_is_elements_final": 12}
 USER_KEYS = {"user_pf_options"}
+# entries of net._pd2ppc_lookups that _pd2ppc rewrites in every calculation; all other entries are lookups per kind of
+# generating element, written only for kinds with an in-service element (C09.Model.F_LK_GEN)
+LK_ALWAYS = {"bus", "aux", "merged_bus", "bus_dc", "aux_dc", "branch", "branch_dc"}
+FIELD.update({"_ppc0": 17, "_ppc1": 17, "_ppc2": 17})
 
 
 def _quiet(f, *a, **kw):
@@ -43,8 +47,16 @@ def _quiet(f, *a, **kw):
 
 
 def field_of(key):
+    if key.startswith("_pd2ppc_lookups/"):
+        return 3 if key.split("/", 1)[1] in LK_ALWAYS else 13
     if key in FIELD:
         return FIELD[key]
+    if key.startswith("res_") and key.endswith("_sc"):
+        return 14
+    if key.startswith("res_") and key.endswith("_3ph"):
+        return 15
+    if key.startswith("res_") and key.endswith("_est"):
+        return 16
     if key.startswith("_empty_res") or key in USER_KEYS:
         return "table"
     if key.startswith("res_"):
@@ -219,6 +231,35 @@ def final_calc(net, kind):
         return exc_class(e)
 
 
+SC_HELPER_COLUMNS = {"k_st", "power_station_unit", "power_station_trafo", "pt_percent", "pg_percent", "oltc", "xn_ohm", "_ppc_idx"}
+
+
+def final_x(net, kind):
+    from pandapower.estimation import estimate
+    try:
+        if kind == "sc3ph":
+            _quiet(sc.calc_sc, net, fault="3ph", case="max", ip=True, ith=True, branch_results=True)
+        elif kind == "sc1ph":
+            _quiet(sc.calc_sc, net, fault="1ph", case="max")
+        elif kind == "3ph":
+            _quiet(pp.runpp_3ph, net, numba=False)
+        elif kind == "est":
+            _quiet(estimate, net, init="flat")
+        return "ok"
+    except Exception as e:
+        # both fail: no results to compare; which check fires first may depend on tables of other calculations being present
+        return "fails"
+
+
+def results_x(net, suffix):
+    out = {"converged": True}
+    for k, v in net.items():
+        if k.startswith("res_") and k.endswith(suffix) and isinstance(v, pd.DataFrame) and len(v):
+            out[k] = (list(v.index), list(v.columns), v.to_numpy(dtype=float, na_value=np.nan) if all(
+                str(t) != "object" for t in v.dtypes) else None)
+    return out
+
+
 def g09_guard(obj_before, fresh_after):
     """python version of C09.Model.G09: previous res_bus has a number at every bus that takes part in the fresh solution
     and has no set point"""
@@ -319,6 +360,8 @@ def history_case(ctx, rng, k):
                       gens=rng.choice([1, 2]) if fam == 1 else None,
                       n_dcline=rng.choice([1, 2]) if fam == 2 else ((0 if (k // 4) % 2 == 0 else rng.choice([0, 1])) if fam == 1 else None),
                       ctrl_sgen=1 if fam == 3 else rng.choice([0, 1]))
+    base.line["endtemp_degree"] = 80.
+    N.add_measurements(base)
     ops = gen_history(rng, base, rng.randint(3, 9))
     if fam == 0:
         # elements that have no result in the last power flow (out of service, or unsupplied because the feeder is out) and
@@ -404,6 +447,25 @@ def history_case(ctx, rng, k):
                 ctx.violation(kd, "%s after the history differs from the same calculation on a net rebuilt from the element tables: "
                               "%s (%s/%s)" % (kind, d[:3], r1, r4), fin)
         ctx.count("final_%s_%s" % (kind, r1))
+    # short circuit, three-phase power flow, state estimation after the history: the result tables of that kind of
+    # calculation on the object, on a net rebuilt from the user-visible state and on a net rebuilt from the element tables alone
+    for kind, suffix in rng.sample([("sc3ph", "_sc"), ("sc1ph", "_sc"), ("3ph", "_3ph"), ("est", "_est")], ctx.n(1, 2)):
+        o1, o3, o4 = copy.deepcopy(obj), rebuilt_clone(obj), fresh_clone(obj)
+        s_before = S.snapshot(o1)
+        r1, r3, r4 = final_x(o1, kind), final_x(o3, kind), final_x(o4, kind)
+        fin = dict(case, final=kind)
+        # helper columns that an earlier short-circuit calculation added (not input values) are recomputed by the next one
+        dd = [x for x in S.diff(s_before, S.snapshot(o1)) if x[1] not in ("dtype_changed",) and
+              not (x[1] == "value_changed" and x[2].split("[")[0] in SC_HELPER_COLUMNS)]
+        if dd:
+            ctx.violation("spec", "%s after the history changes the element tables: %s" % (kind, dd[:3]), fin)
+        a, c, f = results_x(o1, suffix), results_x(o3, suffix), results_x(o4, suffix)
+        d3 = diff_cells(a, c, 1e-8) if r1 == "ok" and r3 == "ok" else []
+        d4 = diff_cells(a, f, 1e-8) if r1 == "ok" and r4 == "ok" else []
+        if r1 != r3 or r1 != r4 or d3 or d4:
+            ctx.violation("spec", "%s after the history differs from the same calculation on a rebuilt net: %s %s (%s/%s/%s)" % (
+                kind, d3[:3], d4[:3], r1, r3, r4), fin)
+        ctx.count("final_%s_%s" % (kind, r1))
     # the object itself vs its deep copy (identity-based state would show here)
     twin = copy.deepcopy(obj)
     ra, rb = final_calc(obj, "runpp"), final_calc(twin, "runpp")
@@ -418,17 +480,42 @@ def history_case(ctx, rng, k):
 
 
 # ------------------------------------------------------------------ correspondence 1: read-before-write sets
-def access_case(ctx, rng, terms, expect):
-    base = N.rich_net(rng, index_gap=False, shift=0)
+def access_case(ctx, rng, terms, expect, new_kind=None):
+    if new_kind is None:
+        base = N.rich_net(rng, index_gap=False, shift=0)
+    else:
+        # nets on which short circuit / three-phase / estimation run: no dcline (its auxiliary gens have no short-circuit
+        # data), no user gens for the three-phase power flow, measurements for the estimation
+        base = N.rich_net(rng, index_gap=False, shift=0, n_dcline=0, gens=0 if new_kind == "3ph" else rng.choice([0, 1]),
+                          bb_switch=1 if new_kind == "est_bb" else 0, xward=0, trafo3w=0)
+        base.line["endtemp_degree"] = 80.
+        N.add_measurements(base)
     obj = copy.deepcopy(base)
-    for op in gen_history(rng, base, rng.randint(2, 6)) + [["calc", "runpp", {}]]:
+    hist = gen_history(rng, base, rng.randint(2, 6))
+    if new_kind is not None:
+        hist = [op for op in hist if op[1] not in ("create_gen", "kind_is")]
+    for op in hist + [["calc", "runpp", {}]]:
         apply_op(obj, op)
-    kind, k, f = rng.choice([
+    choices = [
         ("runpp", 0, lambda n: pp.runpp(n, numba=False, init=rng.choice(["auto", "flat", "dc"]))),
         ("runpp_results", 1, lambda n: pp.runpp(n, numba=False, init="results")),
         ("rundcpp", 0, lambda n: pp.rundcpp(n)),
-        ("runopp", 2, lambda n: pp.runopp(n, numba=False, calculate_voltage_angles=False))])
-    with AccessLog(obj) as log:
+        ("runopp", 2, lambda n: pp.runopp(n, numba=False, calculate_voltage_angles=False))]
+    if new_kind is not None:
+        from pandapower.estimation import estimate
+        # guard of the partial theorems: every kind of generating element whose lookup is read has an in-service element
+        allk = bool(obj.ext_grid.in_service.any())
+        choices = {"sc3ph": ("sc3ph", 4 if allk else 5, lambda n: sc.calc_sc(n, fault="3ph", case="max", ip=True, ith=True, branch_results=True)),
+                   "sc1ph": ("sc1ph", 4 if allk else 5, lambda n: sc.calc_sc(n, fault="1ph", case="max")),
+                   "sc_prefault": ("sc_prefault", 6 if allk else 7,
+                                   lambda n: sc.calc_sc(n, case="max", use_pre_fault_voltage=True, bus=int(n.bus.index[1]))),
+                   "3ph": ("3ph", 8 if allk else 9, lambda n: pp.runpp_3ph(n, numba=False)),
+                   "est": ("est", 10 if allk else 11, lambda n: estimate(n, init="flat")),
+                   "est_results": ("est_results", 12 if allk else 13, lambda n: estimate(n, init="results")),
+                   "est_bb": ("est_bb", 14 if allk else 15, lambda n: estimate(n, init="flat", fuse_buses_with_bb_switch=None))}
+        choices = [choices[new_kind]]
+    kind, k, f = rng.choice(choices)
+    with AccessLog(obj, sub=("_pd2ppc_lookups",)) as log:
         try:
             _quiet(f, obj)
             out = "ok"
@@ -436,6 +523,8 @@ def access_case(ctx, rng, terms, expect):
             out = type(e).__name__
     read_first, unknown = set(), []
     for key, first in log.first.items():
+        if key == "_pd2ppc_lookups":
+            continue          # fetching the container; its entries are logged one by one
         fld = field_of(key)
         if isinstance(fld, str):
             if fld.startswith("unknown"):
@@ -444,20 +533,31 @@ def access_case(ctx, rng, terms, expect):
         if first == "R":
             read_first.add(fld)
     terms.append("run_rbw %s" % cq.nat(k))
-    expect.append((kind, sorted(read_first), unknown, out))
+    expect.append((kind if new_kind is None else "x:" + kind, sorted(read_first), unknown, out))
     ctx.case({"access": kind, "outcome": out}, nontrivial=True)
     ctx.count("access_%s_%s" % (kind, out))
 
 
 # ------------------------------------------------------------------ correspondence 2: the start vector
-def start_vector_case(ctx, rng, terms, expect):
+def start_vector_case(ctx, rng, terms, expect, aux=False):
     import pandapower.powerflow as pf
     from pandapower.pypower.idx_bus import VM, VA, BUS_TYPE, NONE
-    base = N.rich_net(rng, index_gap=False, n_dcline=rng.choice([0, 1]), shift=rng.choice([0, 150]))
+    if aux:
+        base = N.rich_net(rng, index_gap=False, n_dcline=0, shift=rng.choice([0, 150]), bb_switch=0, xward=rng.choice([1, 2]),
+                          trafo3w=rng.choice([0, 1]))
+    else:
+        base = N.rich_net(rng, index_gap=False, n_dcline=rng.choice([0, 1]), shift=rng.choice([0, 150]))
     obj = copy.deepcopy(base)
     hist = gen_history(rng, base, rng.randint(2, 6))
     # make an unsupplied bus likely: feeder transformer out, power flow, transformer in again
-    if rng.random() < 0.6:
+    if aux:
+        # elements with an auxiliary bus that had no result in the last power flow (out of service / unsupplied) and take part now
+        hist = [op for op in hist if op[1] not in ("kind_is",)]
+        off = [["edit", "xward_is", int(i), False] for i in base.xward.index if rng.random() < 0.5] + \
+              [["edit", "trafo3w_is", int(i), False] for i in base.trafo3w.index if rng.random() < 0.5] + \
+              ([["edit", "trafo_is", 0, False]] if rng.random() < 0.4 else [])
+        hist += [["edit", "kind_is", "xward", True]] + off + [["calc", "runpp", {}]] + [[o[0], o[1], o[2], True] for o in off]
+    elif rng.random() < 0.6:
         hist += [["edit", "trafo_is", 0, False], ["calc", "runpp", {}], ["edit", "trafo_is", 0, True]]
     else:
         hist += [["calc", "runpp", {}]]
@@ -466,6 +566,11 @@ def start_vector_case(ctx, rng, terms, expect):
     if "res_bus" not in obj or not obj.res_bus.index.equals(obj.bus.index) or len(obj.res_bus) == 0:
         return
     prev = obj.res_bus[["vm_pu", "va_degree"]].copy()
+    prev_aux = {t: obj["res_" + t][["vm_internal_pu", "va_internal_degree"]].copy() for t in ("xward", "trafo3w")
+                if aux and len(obj[t]) and "res_" + t in obj and obj["res_" + t].index.equals(obj[t].index)}
+    if aux and set(prev_aux) != {t for t in ("xward", "trafo3w") if len(obj[t])}:
+        ctx.count("start_vector_aux_skipped_no_previous_tables")
+        return
     cap = {}
     orig = pf._run_pf_algorithm
 
@@ -481,6 +586,8 @@ def start_vector_case(ctx, rng, terms, expect):
         cap["set_va"] = {int(b): float(v) for b, v in zip(eg.bus.values, eg.va_degree.values)}
         cap["lookup"] = net._pd2ppc_lookups["bus"].copy()
         cap["nppci"] = ppci["bus"].shape[0]
+        cap["aux"] = {t: np.array(v).copy() for t, v in net._pd2ppc_lookups.get("aux", {}).items()}
+        cap["ppc_type"] = net._ppc["bus"][:, BUS_TYPE].copy()
         raise RuntimeError("stop before the solver")
     pf._run_pf_algorithm = spy
     cap["net"] = obj
@@ -508,7 +615,20 @@ def start_vector_case(ctx, rng, terms, expect):
     isolated = set(int(i) for i in np.atleast_1d(obj.get("_isolated_buses", [])))
     lookup = cap["lookup"]
     kept = [bool(obj.bus.at[b, "in_service"]) and int(lookup[b]) not in isolated for b in bus_ids]
-    if sum(kept) != cap["nppci"]:
+    aux_rows = []
+    if aux:
+        # auxiliary buses follow the buses of the bus table in the ppc, kind by kind (build_bus.py:430-440); one is kept iff its
+        # ppc row is not switched off (bus type NONE)
+        pos = {b: j for j, b in enumerate(bus_ids)}
+        for t, col in (("xward", "bus"), ("trafo3w", "hv_bus")):
+            if len(obj[t]) == 0:
+                continue
+            for j, i in enumerate(obj[t].index):
+                row = int(lookup[int(cap["aux"][t][j])])
+                kp = int(cap["ppc_type"][row]) != int(NONE)
+                setv = float(obj.xward.at[i, "vm_pu"]) if (t == "xward" and bool(obj.xward.at[i, "in_service"])) else None
+                aux_rows.append((prev_aux[t].vm_internal_pu.at[i], prev_aux[t].va_internal_degree.at[i], pos[int(obj[t].at[i, col])], setv, kp))
+    if sum(kept) + sum(1 for a in aux_rows if a[4]) != cap["nppci"]:
         ctx.count("start_vector_skipped_unexpected_ppci_size")
         return
     rows = []
@@ -519,7 +639,17 @@ def start_vector_case(ctx, rng, terms, expect):
         rows.append("{| b_prev_vm := %s; b_prev_va := %s; b_set_vm := %s; b_set_va := %s; b_kept := %s |}" % (
             o(float(prev.vm_pu.at[b])), o(float(prev.va_degree.at[b])),
             o(cap["set_vm"].get(int(b)) if in_srv else None), o(cap["set_va"].get(int(b)) if in_srv else None), cq.b(kp)))
-    terms.append("run_start %s" % cq.lst(rows))
+    if aux:
+        def o2(x):
+            return cq.oq(None if (x is None or (isinstance(x, float) and math.isnan(x))) else float(x))
+        arows = ["{| a_prev_vm := %s; a_prev_va := %s; a_bus := %s; a_set_vm := %s; a_kept := %s |}" % (
+            o2(float(a[0])), o2(float(a[1])), cq.nat(a[2]), o2(a[3]), cq.b(a[4])) for a in aux_rows]
+        terms.append("run_start_aux %s %s" % (cq.lst(rows), cq.lst(arows)))
+        ctx.count("start_vector_aux_cases")
+        ctx.count("start_vector_aux_without_previous_internal_voltage" if any(a[4] and math.isnan(float(a[0])) for a in aux_rows)
+                  else "start_vector_aux_all_previous")
+    else:
+        terms.append("run_start %s" % cq.lst(rows))
 
     def fr(x):
         return None if math.isnan(x) else Fraction(float(x))
@@ -559,8 +689,12 @@ def run(ctx):
     terms, expect = [], []
     for _ in range(ctx.n(24, 300)):
         access_case(ctx, rng, terms, expect)
+    for j in range(ctx.n(14, 210)):
+        access_case(ctx, rng, terms, expect, new_kind=["sc3ph", "3ph", "est", "est_bb", "sc1ph", "sc_prefault", "est_results"][j % 7])
     for _ in range(ctx.n(30, 500)):
         start_vector_case(ctx, rng, terms, expect)
+    for _ in range(ctx.n(10, 250)):
+        start_vector_case(ctx, rng, terms, expect, aux=True)
     model = ctx.coq_eval("c09", "Base.QN C09.Model", terms, shard=100, timeout=900)
     for (kind, obs, unknown, out), m in zip(expect, model):
         ctx.corr_checked += 1
@@ -576,6 +710,12 @@ def run(ctx):
         else:
             if unknown:
                 ctx.disagreement("private fields of the net that the model does not know: %s" % unknown, {"kind": kind})
+            elif kind.startswith("x:") and out == "ok" and not (set(obs) <= set(m) and set(m) - set(obs) <= {7, 13}):
+                # may-reads: the generator-type lookups (read only when a kind has no in-service element) and the power flow result
+                # tables (read only when auxiliary elements are tracked / auxiliary buses exist)
+                ctx.disagreement("fields read before written during %s: impl %s / model %s" % (kind, obs, sorted(set(m))), {"kind": kind})
+            elif kind.startswith("x:") and out == "ok":
+                pass
             elif out == "ok" and sorted(set(m)) != obs:
                 ctx.disagreement("fields read before written during %s: impl %s / model %s" % (kind, obs, sorted(set(m))), {"kind": kind})
             elif out != "ok" and not set(obs) <= set(m):
@@ -594,6 +734,17 @@ def replay(ctx, rec):
     for op in case["ops"]:
         apply_op(obj, op)
     kind = case.get("final", "runpp")
+    if kind in ("sc3ph", "sc1ph", "3ph", "est"):
+        suffix = {"sc3ph": "_sc", "sc1ph": "_sc", "3ph": "_3ph", "est": "_est"}[kind]
+        o1, o3, o4 = copy.deepcopy(obj), rebuilt_clone(obj), fresh_clone(obj)
+        r1, r3, r4 = final_x(o1, kind), final_x(o3, kind), final_x(o4, kind)
+        d3 = diff_cells(results_x(o1, suffix), results_x(o3, suffix), 1e-8) if r1 == "ok" and r3 == "ok" else []
+        d4 = diff_cells(results_x(o1, suffix), results_x(o4, suffix), 1e-8) if r1 == "ok" and r4 == "ok" else []
+        if r1 != r3 or r1 != r4 or d3 or d4:
+            ctx.violation("spec", "%s after the history differs from the same calculation on a rebuilt net: %s %s (%s/%s/%s)" % (
+                kind, d3[:3], d4[:3], r1, r3, r4), case)
+        ctx.case({"replay": kind}, nontrivial=True)
+        return
     o1, o3 = copy.deepcopy(obj), rebuilt_clone(obj)
     r1, r3 = final_calc(o1, kind), final_calc(o3, kind)
     d = same_results(results_of(o1), results_of(o3))
